@@ -58,11 +58,35 @@ HIST = {
  "C16-b4": "MISSED by the check as it stood; caught after: nasty-character list at every position through every text codec and a 2000-scalar sweep",
  "C17-a4": "MISSED by the check as it stood; caught after: the construct corpus (frozen vs unfrozen on one or more lambdas per syntactic construct)",
  "C17-b4": "MISSED by the check as it stood; caught after: the construct corpus (nested freeze entries)",
+ "C01-a5": "MISSED by the check as it stood; caught after: struct-instance family in the reference semantics (eight structs per history, foreign and same-named accessors in every write / extract form)",
+ "C01-b5": "MISSED by the check as it stood; caught after: the same struct-instance family (same-named structs declared in separate scopes)",
+ "C02-a5": "MISSED by the check as it stood; caught after: with-default op-assign targets with the key present (8 workload families)",
+ "C02-b5": "MISSED by the check as it stood; caught after: `and` op-assign targets (5 workload families)",
+ "C04-a5": "MISSED by the check as it stood; caught after: sequences of two or three application forms of one closure with captures in one frame, evaluated as written and after optimize_expr",
+ "C04-b5": "MISSED by the check as it stood; caught after: op-assign agreement with f(x, b) for every target shape (index paths on asymmetric data, with-default targets, struct fields)",
+ "C05-a5": "MISSED by the check as it stood; caught after: generator form late-declared-captured (closures created in a nested scope before the enclosing, still empty scope receives the declaration they use)",
+ "C05-b5": "MISSED by the check as it stood; caught after: generator form yield-item-break-value",
+ "C06-b5": "MISSED by the check as it stood; caught after: hash-container probes (machine word vs big representation as one key of a set / dict)",
+ "C07-a5": "MISSED by the check as it stood; caught after: every binary case in nine sharing configurations (variable / literal / temporary / copy kept alive)",
+ "C07-b5": "MISSED by the check as it stood; caught after: `^` with exponents at the 2^15 / 2^16 / 2^31 / 2^32 / 2^63 / 2^64 boundaries for cheap bases at every level; theorems intPow_eq, ratPow_eq",
+ "C09-a5": "MISSED by the check as it stood; caught after: dictionaries carrying a default as keys at depth 0-2; theorem key_eq_ignores_default",
+ "C09-b5": "MISSED by the check as it stood; caught after: memoize keyed on the argument tuple (model, nine call shapes); theorem memo_tuples_collide_iff",
+ "C10-a5": "MISSED by the check as it stood; caught after: advanced list-backed streams as a sequence kind in the whole read / slice / accessor / write grid",
+ "C10-b5": "MISSED by the check as it stood; caught after: two- and three-level writes where the outer value is a stream of sequences",
+ "C12-a5": "MISSED by the check as it stood; caught after: switch arm bodies that log / raise (Impl/PatternSwitch.lean); theorem switch_body_error_propagates",
+ "C12-b5": "MISSED by the check as it stood; caught after: advanced list-backed streams as a value kind for every pattern generator",
+ "C13-a5": "MISSED by the check as it stood; caught after: long inputs (33-200 elements) with ==-equal, distinguishable ties for every order-sensitive function",
+ "C13-b5": "MISSED by the check as it stood; caught after: the Unicode White_Space table in the model and a text generator over every whitespace character; theorem words_pieces",
+ "C14-a5": "MISSED by the check as it stood; caught after: statement templates with op-assignment to struct patterns (too few / too many sub-patterns)",
+ "C14-b5": "MISSED by the check as it stood; caught after: texts of the builtins' mini-languages (axis specs, regular expressions) in the pool",
+ "C15-a5": "MISSED by the check as it stood; caught after: source texts with sequences of 2-4 literals of different kinds (lexer state between tokens); theorem lex_tokens_independent",
+ "C16-b5": "MISSED by the check as it stood; caught after: text-driven JSON-shaped inputs with repeated keys read as a literal and through json_decode; theorem dictLiteral_last_wins",
+ "C17-b5": "MISSED by the check as it stood; caught after: all-constant list / dict entries of every literal kind in the construct corpus",
 }
 def main():
     for d in sorted(os.listdir(os.path.join(ROOT, "seeded"))):
         p = os.path.join(ROOT, "seeded", d)
-        if not (d.endswith("2") or d.endswith("3") or d.endswith("4")) or not os.path.isdir(p):
+        if not (d.endswith("2") or d.endswith("3") or d.endswith("4") or d.endswith("5")) or not os.path.isdir(p):
             continue
         rnd = int(d[-1])
         prop = d.split("-")[0]
